@@ -512,6 +512,7 @@ func writeEvidence(id, tier string, def *checkDef, results []*exploreResult, vio
 			"obligations": r.asserts, "solver_queries": r.solverQueries, "solver_time_s": round3(r.solverTime.Seconds()),
 			"wall_s": round3(r.wall.Seconds()), "truncated": r.truncated, "incomplete": r.incomplete,
 			"expect_violation_twin": r.spec.ExpectViolation, "float_havoc_ops": r.havocs,
+			"second_solver_recheck": map[string]any{"solver": "cvc5 1.0 (one-shot, QF_BV, 10 s)", "sampled_queries": r.diffSampled, "agreed": r.diffAgreed, "second_solver_inconclusive": r.diffOther, "disagreed": r.diffBad},
 		})
 	}
 	for _, v := range viol {
